@@ -3,7 +3,6 @@ package c06
 import (
 	"context"
 	"database/sql"
-	"encoding/json"
 	"errors"
 	"fmt"
 	"os"
@@ -60,12 +59,6 @@ func init() {
 
 // ---------------------------------------------------------------------------------------
 // database stand-in
-
-type row struct {
-	ID   int64  `json:"id"`
-	Name string `json:"name"`
-	Ver  int    `json:"ver"`
-}
 
 var errNoSQL = errors.New("c06: the fake SqlConn executes no statements")
 
@@ -147,8 +140,9 @@ func (execResult) RowsAffected() (int64, error) { return 1, nil }
 
 type entity struct {
 	idx        int
-	id         int64
+	pk         any // the primary key as the database has it: int64 or string
 	name       string
+	pay        int // index into payloads
 	pkey, ikey string
 	ver        int   // version the database holds now; 0 = no such row
 	hist       []int // every state the database has held for this row, oldest first
@@ -197,6 +191,7 @@ type qexec struct {
 	ts, te time.Time
 	err    error // injected error, the not-found error or nil
 	inj    bool  // err is an injected database error
+	bare   bool  // ... a shared sentinel value, not a unique error
 	ver    int
 	done   bool
 }
@@ -241,6 +236,7 @@ type call struct {
 	got        row
 	out        outcome
 	own        []*qexec
+	dbx        *qexec  // out == oDBErr: the query whose error the call returned
 	withExp    bool    // rTake through Cache.TakeWithExpire
 	cx         ctxPlan // the request context of the call
 }
@@ -391,6 +387,7 @@ type world struct {
 	variant int
 	faulty  bool
 	ctxy    bool // request contexts may end while (or before) an operation runs
+	idents  bool // error identities are drawn (wrapped not-found, sentinel / look-alike database errors)
 	monc    bool // the cache-aside API under test is monc.Model (Mongo cached model) instead of sqlc.CachedConn
 	mm      *monc.Model
 	e, nfe  time.Duration
@@ -418,6 +415,11 @@ type world struct {
 func (w *world) tick() int { w.clk++; return w.clk }
 
 func (w *world) fail(class, format string, a ...any) {
+	for i, x := range a {
+		if str, ok := x.(string); ok && len(str) > 160 {
+			a[i] = fmt.Sprintf("%s...(%d bytes)", str[:100], len(str)) // keys and values of several KB
+		}
+	}
 	if masked[class] {
 		w.r.Probe("masked-finding-" + class)
 		return
@@ -425,7 +427,14 @@ func (w *world) fail(class, format string, a ...any) {
 	w.r.Fail(class, format, a...)
 }
 
-func (w *world) curRow(e *entity) row { return row{ID: e.id, Name: e.name, Ver: e.ver} }
+func (w *world) curRow(e *entity) row { return w.rowAt(e, e.ver) }
+
+// rowAt: the row as the database held it at version ver.
+func (w *world) rowAt(e *entity, ver int) row {
+	r := row{ID: e.pk, Name: e.name, Ver: ver}
+	payloads[e.pay].fill(&r)
+	return r
+}
 
 func (w *world) keyOf(e *entity, kind int) string {
 	if kind == qIndex {
@@ -479,12 +488,12 @@ func (w *world) query(ctx context.Context, st *step, c *call, kind int, v any) (
 	case failing:
 		w.nErr++
 		x.inj = true
-		x.err = fmt.Errorf("injected database error %d", w.nErr)
+		x.err, x.bare = w.injectedDBErr(w.nErr)
 		w.r.Probe("db-error-injected")
 		return nil, x.err
 	case ent.ver == 0:
 		x.err = w.errNF
-		return nil, w.errNF
+		return nil, w.notFoundFromDB(ent)
 	}
 	rp, ok := v.(*row)
 	if !ok {
@@ -496,22 +505,7 @@ func (w *world) query(ctx context.Context, st *step, c *call, kind int, v any) (
 	if kind == qIndex {
 		ent.idxLoaded = true
 	}
-	return ent.id, nil
-}
-
-func toInt(v any) (int64, bool) {
-	switch n := v.(type) {
-	case int64:
-		return n, true
-	case int:
-		return int64(n), true
-	case float64:
-		return int64(n), float64(int64(n)) == n
-	case json.Number: // go-zero's jsonx decodes numbers of an `any` destination this way
-		i, err := n.Int64()
-		return i, err == nil
-	}
-	return 0, false
+	return ent.pk, nil
 }
 
 func (w *world) doRead(st *step, c *call) {
@@ -521,20 +515,29 @@ func (w *world) doRead(st *step, c *call) {
 	if w.monc {
 		c.err = w.monRead(ctx, st, c, &v)
 		c.cx.close()
-		w.classify(c, v)
+		w.classify(ent, c, v)
 		return
 	}
 	checkExpire := func(expire time.Duration) {
 		// the expiry handed to the loader is the one the entry is going to be written with
-		if expire < w.minTTL(w.e)-time.Millisecond || expire > time.Duration(1.05*float64(w.e))+time.Millisecond {
+		if expire < jitMin(w.e)-time.Millisecond || expire > jitMax(w.e)+time.Millisecond {
 			w.fail("take-with-expire:expiry-out-of-bounds", "TakeWithExpire(%s) handed the expiry %v to the loader; the configured expiry is %v (+/-5%%)", ent.pkey, expire, w.e)
 		}
 		w.r.Probe("take-with-expire")
 	}
-	keyer := func(primary any) string { return fmt.Sprintf("p%s:%v", w.pfx, primary) }
+	// the keyer is what generated model code uses: prefix + %v of the primary key.  The key it builds
+	// from the primary key that the cache hands it must be the row's primary cache key: an entry
+	// under any other key is invalidated by nobody
+	keyer := func(primary any) string {
+		k := fmt.Sprintf("p%s:%v", w.pfx, primary)
+		if k != ent.pkey {
+			w.fail("index-wrong-primary:key", "index key %s: the keyer was handed the primary %v (%T) and builds the cache key %s; the row's primary key is %v (%T), cached under %s", short(ent.ikey), primary, primary, short(k), ent.pk, ent.pk, short(ent.pkey))
+		}
+		return k
+	}
 	checkPrimary := func(primary any) {
-		if id, ok := toInt(primary); !ok || id != ent.id {
-			w.fail("index-wrong-primary", "index key %s resolved to primary %v (%T), the row's primary key is %d", ent.ikey, primary, primary, ent.id)
+		if !samePK(primary, ent.pk) {
+			w.fail("index-wrong-primary", "index key %s resolved to primary %v (%T), the row's primary key is %v (%T)", short(ent.ikey), primary, primary, ent.pk, ent.pk)
 		}
 	}
 	switch c.kind {
@@ -609,17 +612,18 @@ func (w *world) doRead(st *step, c *call) {
 		}
 	}
 	c.cx.close()
-	w.classify(c, v)
+	w.classify(ent, c, v)
 }
 
-func (w *world) classify(c *call, v row) {
+func (w *world) classify(ent *entity, c *call, v row) {
 	c.got = v
 	switch {
 	case c.err == nil:
 		c.out = oRow
 	case errors.Is(c.err, w.errNF):
 		c.out = oNotFound
-	case w.injected(c.err) != nil:
+	case w.injectedFor(ent, c, c.err) != nil:
+		c.dbx = w.injectedFor(ent, c, c.err)
 		c.out = oDBErr
 	default:
 		c.out = oStoreErr
@@ -629,13 +633,31 @@ func (w *world) classify(c *call, v row) {
 	}
 }
 
-func (w *world) injected(err error) *qexec {
-	for _, x := range w.execs {
-		if x.inj && errors.Is(err, x.err) {
+// injectedFor: the injected database error that call c returned.  A query of its own first, then
+// one of a call that overlapped it on the same row (shared flight); a unique error matches wherever
+// it was made (and is then judged unattributable), a bare sentinel only where it can have come from.
+func (w *world) injectedFor(ent *entity, c *call, err error) *qexec {
+	if err == nil {
+		return nil
+	}
+	var other *qexec
+	for i := len(w.execs) - 1; i >= 0; i-- {
+		x := w.execs[i]
+		if !x.inj || !errors.Is(err, x.err) {
+			continue
+		}
+		l := x.caller
+		if l != c && x.bare && c.kind == rGet {
+			continue // GetCache shares nobody's flight: the same sentinel from the store (an ended context)
+		}
+		if l == c || (x.ent == ent && (!l.returned || c.inv < l.ret)) {
 			return x
 		}
+		if !x.bare && other == nil {
+			other = x
+		}
 	}
-	return nil
+	return other
 }
 
 var errWrite = errors.New("injected database write error")
@@ -669,19 +691,19 @@ func (w *world) doWrite(st *step) {
 		var vs []row
 		switch st.nocache {
 		case 0:
-			st.err = w.cc.QueryRowNoCache(&v, q, ent.id)
+			st.err = w.cc.QueryRowNoCache(&v, q, ent.pk)
 		case 1:
-			_, st.err = w.cc.ExecNoCache(q, ent.id)
+			_, st.err = w.cc.ExecNoCache(q, ent.pk)
 		case 2:
-			st.err = w.cc.QueryRowsNoCache(&vs, q, ent.id)
+			st.err = w.cc.QueryRowsNoCache(&vs, q, ent.pk)
 		case 3:
-			st.err = w.cc.QueryRowPartialNoCache(&v, q, ent.id)
+			st.err = w.cc.QueryRowPartialNoCache(&v, q, ent.pk)
 		default:
-			st.err = w.cc.QueryRowsPartialNoCache(&vs, q, ent.id)
+			st.err = w.cc.QueryRowsPartialNoCache(&vs, q, ent.pk)
 		}
 		calls := w.conn.log.calls[st.connPre:]
-		if len(calls) != 1 || calls[0].method != noCacheConnMethods[st.nocache] || calls[0].q != q || len(calls[0].args) != 1 || calls[0].args[0] != any(ent.id) {
-			w.fail("no-cache-pass-through", "%s(%q, %d) reached the database connection as %+v", noCacheNames[st.nocache], q, ent.id, calls)
+		if len(calls) != 1 || calls[0].method != noCacheConnMethods[st.nocache] || calls[0].q != q || len(calls[0].args) != 1 || calls[0].args[0] != ent.pk {
+			w.fail("no-cache-pass-through", "%s(%q, %v) reached the database connection as %+v", noCacheNames[st.nocache], q, ent.pk, calls)
 		}
 	case kWrite, kDelete, kFailExec:
 		exec := func(ctx context.Context) (sql.Result, error) {
@@ -1021,6 +1043,10 @@ func newWorld(r *simrt.Run, tier string) *world {
 	if w.monc {
 		r.Probe("monc-member")
 	}
+	w.idents = t.Intn(3) == 2
+	if w.idents {
+		r.Probe("error-identities-member")
+	}
 	w.variant = t.Intn(4)
 	w.cluster = w.variant == 3
 	ne := len(expiries)
@@ -1031,6 +1057,21 @@ func newWorld(r *simrt.Run, tier string) *world {
 	}
 	w.e = expiries[t.Intn(ne)]
 	w.nfe = nfExpiries[t.Intn(len(nfExpiries))]
+	// months and years (nobody waits for such an entry to expire; its TTL is what is checked)
+	if t.Intn(10) >= 7 {
+		w.e = longExpiries[t.Intn(len(longExpiries))]
+		r.Probe("expiry-long")
+		if w.e > 100*day {
+			r.Probe("expiry-above-100-days")
+		}
+	}
+	if t.Intn(10) >= 8 {
+		w.nfe = longExpiries[t.Intn(len(longExpiries))]
+		r.Probe("not-found-expiry-long")
+		if w.nfe > 100*day {
+			r.Probe("not-found-expiry-above-100-days")
+		}
+	}
 	var opts []cache.Option
 	switch []int{0, 0, 0, 0, 0, 0, 1, 1, 1, 2, 2, 2, 2, 4, 5, 6}[t.Intn(16)] {
 	case 0:
@@ -1079,7 +1120,9 @@ func newWorld(r *simrt.Run, tier string) *world {
 		if w.monc {
 			return monc.ErrNotFound
 		}
-		return errors.New("c06: no such row")
+		k := t.Intn(len(notFoundPool))
+		r.Probe("not-found-error-" + notFoundPool[k].name)
+		return notFoundPool[k].mk()
 	}
 	libNF := func() error {
 		if w.monc {
@@ -1160,8 +1203,25 @@ func newWorld(r *simrt.Run, tier string) *world {
 	})
 	n := t.Range(2, 4)
 	for i := 0; i < n; i++ {
-		ent := &entity{idx: i, id: int64(101 + i), name: fmt.Sprintf("n%d", i)}
-		ent.pkey = fmt.Sprintf("p%s:%d", w.pfx, ent.id)
+		ent := &entity{idx: i, pk: int64(101 + i), name: fmt.Sprintf("n%d", i)}
+		// primary key, index value and payload from the pools (0: the simple one); two rows never
+		// share a key
+		if pk := pkPool[t.Intn(len(pkPool))]; pk != nil && w.byKey[fmt.Sprintf("p%s:%v", w.pfx, pk)] == nil {
+			ent.pk = pk
+		}
+		if name := namePool[t.Intn(len(namePool))]; name != "" && w.byKey[fmt.Sprintf("i%s:%s", w.pfx, name)] == nil {
+			ent.name = name
+		}
+		ent.pay = payloadDraw[t.Intn(len(payloadDraw))]
+		if w.monc && !payloads[ent.pay].bsonSafe {
+			ent.pay = 0
+		}
+		r.Probe("pk-" + pkClass(ent.pk))
+		if ent.name != fmt.Sprintf("n%d", i) {
+			r.Probe("index-value-from-pool")
+		}
+		r.Probe("payload-" + payloads[ent.pay].name)
+		ent.pkey = fmt.Sprintf("p%s:%v", w.pfx, ent.pk)
 		ent.ikey = fmt.Sprintf("i%s:%s", w.pfx, ent.name)
 		if !t.Bool() {
 			w.nVer++
@@ -1210,6 +1270,14 @@ func (w *world) placement() {
 	w.r.Probe(fmt.Sprintf("cluster-keys-on-%d-of-%d-nodes", len(used), len(w.nodes)))
 }
 
+func shortKeys(ks []string) string {
+	var out []string
+	for _, k := range ks {
+		out = append(out, short(k))
+	}
+	return "[" + strings.Join(out, " ") + "]"
+}
+
 func (w *world) placementDesc() []string {
 	var out []string
 	for _, n := range w.nodes {
@@ -1220,7 +1288,7 @@ func (w *world) placementDesc() []string {
 			}
 		}
 		sort.Strings(ks)
-		out = append(out, fmt.Sprintf("node%d %s weight %d: %s", n.idx, n.addr, n.weight, strings.Join(ks, " ")))
+		out = append(out, fmt.Sprintf("node%d %s weight %d: %s", n.idx, n.addr, n.weight, shortKeys(ks)))
 	}
 	return out
 }
@@ -1269,7 +1337,10 @@ func (w *world) genStep(ent *entity, allowWrite bool) *step {
 		st.kind = kSetCache
 		if t.Bool() {
 			st.kind = kSetCacheExp
-			st.expire = []time.Duration{7 * time.Second, time.Second, 1500 * time.Millisecond, 40 * time.Second, 3 * time.Minute}[t.Intn(5)]
+			st.expire = explicitExpiries[t.Intn(len(explicitExpiries))]
+			if st.expire > time.Hour {
+				w.r.Probe("explicit-expiry-long")
+			}
 		}
 		if ent.ver == 0 {
 			st.kind = kWrite // nothing to put into the cache: insert the row instead
@@ -1399,7 +1470,7 @@ func (st *step) String() string {
 		s += fmt.Sprintf("+row%d", e.idx)
 	}
 	if len(st.more) > 0 {
-		s += fmt.Sprintf(" keys=%v", st.keyList)
+		s += " keys=" + shortKeys(st.keyList)
 	}
 	if st.kind == kNoCache && st.nocache < len(noCacheNames) {
 		s += " " + noCacheNames[st.nocache]
@@ -1414,7 +1485,7 @@ func (st *step) String() string {
 		}
 	}
 	if st.kind == kDelCache && st.only > 0 {
-		s += " only " + st.ent.keys()[st.only-1]
+		s += " only " + short(st.ent.keys()[st.only-1])
 	}
 	if st.kind == kRead {
 		s += "["
@@ -1627,6 +1698,9 @@ func (w *world) advance() {
 		}
 		f := []float64{0.5, 0.95, 1.0, 1.05, 1.2}[t.Intn(5)]
 		d = time.Duration(f*float64(base)) + []time.Duration{0, -time.Millisecond, time.Second, -time.Second}[t.Intn(4)]
+		if base > w.maxJump {
+			d = time.Duration(t.Range(1, 3000)) * time.Millisecond // nobody waits months
+		}
 	default:
 		l := lives[t.Intn(len(lives))]
 		d = l.s.ttl + []time.Duration{0, -1, 1, -time.Second, time.Second, -500 * time.Millisecond}[t.Intn(6)]
@@ -1795,7 +1869,7 @@ func body(r *simrt.Run, tier string) {
 	}
 	ents := ""
 	for _, e := range w.ents {
-		ents += fmt.Sprintf("row%d:%v ", e.idx, e.hist)
+		ents += fmt.Sprintf("row%d(pk %s, index value %s, payload %s):%v ", e.idx, short(fmt.Sprint(e.pk)), short(e.name), payloads[e.pay].name, e.hist)
 	}
 	construction := []string{"cache.NewNode+NewConnWithCache", "sqlc.NewNodeConn", "sqlc.NewConn(one-node cluster conf)", "sqlc.NewConn(cluster conf)"}[w.variant]
 	if w.cluster && w.cache != nil {
